@@ -13,7 +13,17 @@ import (
 // doF8Impl replays the schedule  FIN completes on the channel | Channel.Empty | client.FinishedMessage
 // (DESIGN section 7, F8) on the real code: the FIN of connection k is stopped at the hook
 // `proto.fin.beforeClientCount`, the channel is emptied, the FIN is released.
-func (h *vfE2H) doF8Impl(k int, tok string) {
+func (h *vfE2H) doF8Impl(k int, tok string) { h.doF8Mode(k, tok, "fin") }
+
+// doF8Mode — mode "fin": the F8 schedule above. Mode "req" (round 9, audit B18: the REQ window, hook
+// `proto.req.beforeClientCount`):  REQ 0 completes on the channel (message queued again) | Channel.Empty |
+// client.RequeuedMessage. The atomic model explains it as `req k id 0; empty` (Empty subtracts only what it finds
+// registered in flight — fix F13 — so the pending decrement of the parked REQ ends at the same counters).
+func (h *vfE2H) doF8Mode(k int, tok string, mode string) {
+	hook, verb := "proto.fin.beforeClientCount", "FIN "
+	if mode == "req" {
+		hook, verb = "proto.req.beforeClientCount", "REQ "
+	}
 	cn := h.conns[k]
 	if cn == nil || cn.dead || !cn.subbed {
 		return
@@ -27,12 +37,16 @@ func (h *vfE2H) doF8Impl(k int, tok string) {
 	h.park([]*vfE2Chan{ch}, true)
 	entered := make(chan bool, 1)
 	release := make(chan bool)
-	VerifSetHook("proto.fin.beforeClientCount", func(string) {
+	VerifSetHook(hook, func(string) {
 		entered <- true
 		<-release
 	})
-	defer VerifSetHook("proto.fin.beforeClientCount", nil)
-	cn.nc.Write([]byte("FIN " + string(id) + "\nTOUCH " + string(vfE2Barrier) + "\n"))
+	defer VerifSetHook(hook, nil)
+	if mode == "req" {
+		cn.nc.Write([]byte("REQ " + string(id) + " 0\nTOUCH " + string(vfE2Barrier) + "\n"))
+	} else {
+		cn.nc.Write([]byte(verb + string(id) + "\nTOUCH " + string(vfE2Barrier) + "\n"))
+	}
 	select {
 	case <-entered:
 	case <-time.After(3 * time.Second):
@@ -45,18 +59,30 @@ func (h *vfE2H) doF8Impl(k int, tok string) {
 		} else {
 			code = "ok"
 		}
-		h.emit(fmt.Sprintf("fin %d %d", k, seq), vfE2Fmt(code, false))
+		if mode == "req" {
+			h.emit(fmt.Sprintf("req %d %d 0 0", k, seq), vfE2Fmt(code, false))
+		} else {
+			h.emit(fmt.Sprintf("fin %d %d", k, seq), vfE2Fmt(code, false))
+		}
 		h.after(tp)
 		return
 	}
-	h.emit(fmt.Sprintf("finchan %d %d", k, seq), "ok")
-	// fix F13: Channel.Empty subtracts what it dropped, the parked FIN's own decrement follows:
-	// the harness's books (holds 0, finished +1) must agree with the client's counters afterwards
-	cn.nFin++
-	h.micro = true
-	ch.finished[seq] = true
-	delete(ch.located, seq)
-	delete(ch.holder, seq)
+	if mode == "req" {
+		// the channel part of the REQ is done: the message is queued again (still located), the books count the REQ
+		h.emit(fmt.Sprintf("req %d %d 0 0", k, seq), "ok")
+		cn.nReq++
+		ch.nReq++
+		delete(ch.holder, seq)
+	} else {
+		h.emit(fmt.Sprintf("finchan %d %d", k, seq), "ok")
+		// fix F13: Channel.Empty subtracts what it dropped, the parked FIN's own decrement follows:
+		// the harness's books (holds 0, finished +1) must agree with the client's counters afterwards
+		cn.nFin++
+		h.micro = true
+		ch.finished[seq] = true
+		delete(ch.located, seq)
+		delete(ch.holder, seq)
+	}
 	// Channel.Empty while the FIN is parked
 	rc := h.realChan(ch)
 	rc.inFlightMutex.Lock()
@@ -82,10 +108,14 @@ func (h *vfE2H) doF8Impl(k int, tok string) {
 	close(release)
 	f, ok := h.nextNonMsg(cn, 5*time.Second)
 	if !ok || !strings.Contains(string(f.data), string(vfE2Barrier)) {
-		h.fail("f8", "no barrier answer after the released FIN")
+		h.fail("f8", "no barrier answer after the released "+verb)
 	}
-	h.emit(fmt.Sprintf("fincli %d", k), "ok")
-	h.count("hook:f8")
+	if mode == "req" {
+		h.count("hook:f8req")
+	} else {
+		h.emit(fmt.Sprintf("fincli %d", k), "ok")
+		h.count("hook:f8")
+	}
 	h.after(tp)
 }
 
